@@ -298,23 +298,49 @@ impl Out {
         self.emit("serder", &[hex(t)], ans);
     }
 
+    /// `sat <text> <printed form of the parsed range> <version>`
     pub fn sat(&mut self, t: &str, r: &Range, v: &Version) {
         let ans = match quiet(|| (r.satisfies(v), v.satisfies(r))) {
             Ok((a, b)) if a == b => b01(a).to_string(),
             Ok(_) => "version-and-range-disagree".into(),
             Err(()) => "panic".into(),
         };
-        self.emit("sat", &[hex(t), enc_version(v)], ans);
+        let printed = quiet(|| r.to_string()).unwrap_or_else(|_| "!panic".into());
+        self.emit("sat", &[hex(t), hex(&printed), enc_version(v)], ans);
     }
 
-    pub fn setops(&mut self, ta: &str, a: &Range, tb: &str, b: &Range) {
-        let args = [hex(ta), hex(tb)];
-        self.emit("isect", &args, show_range_opt(quiet(|| a.intersect(b))));
-        self.emit("rdiff", &args, show_range_opt(quiet(|| a.difference(b))));
-        let any = quiet(|| a.allows_any(b)).map(|x| b01(x).to_string()).unwrap_or("panic".into());
-        self.emit("any", &args, any);
-        let all = quiet(|| a.allows_all(b)).map(|x| b01(x).to_string()).unwrap_or("panic".into());
-        self.emit("all", &args, all);
+    /// the four binary operations on the *printed* forms of the operands (canonical texts)
+    pub fn setops(&mut self, _ta: &str, a0: &Range, _tb: &str, b0: &Range) {
+        let (ta, tb) = match (quiet(|| a0.to_string()), quiet(|| b0.to_string())) {
+            (Ok(x), Ok(y)) => (x, y),
+            _ => return,
+        };
+        let (a, b) = match (Range::parse(&ta), Range::parse(&tb)) {
+            (Ok(x), Ok(y)) => (x, y),
+            // a printed range that does not parse back is reported by the round-trip stream
+            _ => {
+                self.emit("rround", &[hex(&ta)], "reparse-fail-in-setops".into());
+                return;
+            }
+        };
+        let args = [hex(&ta), hex(&tb)];
+        let isect = quiet(|| a.intersect(&b));
+        let isect_some = isect.as_ref().map(|x| x.is_some()).unwrap_or(false);
+        self.emit("isect", &args, show_range_opt(isect));
+        self.emit("rdiff", &args, show_range_opt(quiet(|| a.difference(&b))));
+        let any = quiet(|| a.allows_any(&b));
+        let rev = quiet(|| b.allows_any(&a));
+        let ans = match (any, rev) {
+            (Ok(x), Ok(y)) => format!("{} isect={} rev={}", b01(x), b01(isect_some), b01(y)),
+            _ => "panic".into(),
+        };
+        self.emit("any", &args, ans);
+        let all = quiet(|| (a.allows_all(&b), a.allows_any(&b), a.allows_all(&a), b.difference(&a).is_none()));
+        let ans = match all {
+            Ok((x, y, z, w)) => format!("{} any={} self={} diffnone={}", b01(x), b01(y), b01(z), b01(w)),
+            Err(()) => "panic".into(),
+        };
+        self.emit("all", &args, ans);
     }
 
     pub fn minv(&mut self, t: &str, r: &Range) {
@@ -322,11 +348,13 @@ impl Out {
             Ok(v) => show_version_opt(v.as_ref()),
             Err(()) => "panic".into(),
         };
-        self.emit("minv", &[hex(t)], ans);
+        let printed = quiet(|| r.to_string()).unwrap_or_else(|_| "!panic".into());
+        self.emit("minv", &[hex(t), hex(&printed)], ans);
     }
 
     pub fn maxmin(&mut self, t: &str, r: &Range, vs: &[Version]) {
-        let mut args = vec![hex(t)];
+        let printed = quiet(|| r.to_string()).unwrap_or_else(|_| "!panic".into());
+        let mut args = vec![hex(t), hex(&printed)];
         args.extend(vs.iter().map(enc_version));
         let in_slice = |x: Option<&Version>| match x {
             None => true,
@@ -367,7 +395,8 @@ macro_rules! try_types3 {
         $(
             if let (Ok(x), Ok(y), Ok(z)) = (<$t>::try_from($a), <$t>::try_from($b), <$t>::try_from($c)) {
                 let v = Version::from((x, y, z));
-                $acc.push(format!("{} {}", enc_version(&v), hex(&v.to_string())));
+                let p = Version::parse(format!("{}.{}.{}", $a, $b, $c)).map(|w| enc_version(&w)).unwrap_or("perr".into());
+                $acc.push(format!("{} {} parse={}", enc_version(&v), hex(&v.to_string()), p));
             }
         )+
     };
@@ -377,7 +406,8 @@ macro_rules! try_types4 {
         $(
             if let (Ok(x), Ok(y), Ok(z), Ok(w)) = (<$t>::try_from($a), <$t>::try_from($b), <$t>::try_from($c), <$t>::try_from($d)) {
                 let v = Version::from((x, y, z, w));
-                $acc.push(format!("{} {}", enc_version(&v), hex(&v.to_string())));
+                let p = Version::parse(format!("{}.{}.{}-{}", $a, $b, $c, $d)).map(|w| enc_version(&w)).unwrap_or("perr".into());
+                $acc.push(format!("{} {} parse={}", enc_version(&v), hex(&v.to_string()), p));
             }
         )+
     };
